@@ -107,16 +107,19 @@ func ExactLatest(tags string) bool {
 	return false
 }
 
-// TagsExact is the hypothesis of the C12 order theorem that the finding
-// F-C12-latest-substr removes: for every version, "latest" occurs in the tag
-// string only as a whole tag.
-func TagsExact(vs []V) bool {
+// LatestLookalike reports whether some tag string contains "latest" other than as a
+// whole tag (notlatest, latest-2, latestx, ...). Such versions are NOT tagged latest.
+// They were the class of the finding F-C12-latest-substr (sortNPMVersions tested
+// strings.Contains(tags, "latest")); since its repair they are ordinary regression
+// inputs: nothing is classified or tolerated on them, the helper only feeds the
+// distribution histograms.
+func LatestLookalike(vs []V) bool {
 	for _, v := range vs {
-		if strings.Contains(v.Tags, "latest") != ExactLatest(v.Tags) {
-			return false
+		if strings.Contains(v.Tags, "latest") && !ExactLatest(v.Tags) {
+			return true
 		}
 	}
-	return true
+	return false
 }
 
 func isPre(sys semver.System, s string) bool {
